@@ -321,7 +321,11 @@ class Gen:
             return ("def", name, prm, [("return", "%s + %s" % (prm, self.expr(bound - {prm}, 2)))]), bound | {name}
         if kind == "class":
             name = rng.choice(["Cls", "Rec"])
-            return ("class", name, [("assign", [("name", "field")], self.expr(bound, 2))]), bound | {name}
+            body = [("assign", [("name", "field")], self.expr(bound, 2))]
+            if rng.random() < 0.3:
+                # a declaration in the body of the class belongs to the class, not to the function around it
+                body = [("raw", "global GLOB2"), ("assign", [("name", "GLOB2")], "GLOB2 + %d" % rng.randrange(1, 4))] + body
+            return ("class", name, body), bound | {name}
         raise ValueError(kind)
 
     def function(self, name="f", generator=False, size=10):
@@ -493,6 +497,8 @@ def render(fn, twin=False, subst=None, ann_params=None, decl=None):
                 lines.append("%sdef %s(%s):" % (ind, s[1], s[2]))
                 emit_plain(s[3], ind + "    ")
                 lines.extend(post_bind([s[1]], ind))
+            elif k == "raw":
+                lines.append(ind + s[1])
             elif k == "class":
                 lines.append("%sclass %s:" % (ind, s[1]))
                 emit_plain(s[2], ind + "    ")
